@@ -148,6 +148,7 @@ type baseProg struct {
 	style  idl.Style
 	oldDir string
 	edits  []*edit
+	empty  map[string]bool // methods of the old program spelled `throws ()`
 }
 
 type job struct {
@@ -413,12 +414,12 @@ func blame(bp *baseProg, g, oldFile string, cands, script []*edit, wrongFail boo
 		return cands[0].Op + qualSuffix(bp, cands, g)
 	}
 	for i, e := range cands {
-		c := &ectx{p: bp.p.Clone()}
+		c := &ectx{p: bp.p.Clone(), empty: copyFlags(bp.empty)}
 		if !e.apply(c) || validateProgram(c.p) != nil || c.p.File(g) == nil {
 			continue
 		}
 		d := filepath.Join(dir, fmt.Sprintf("blame%d", i))
-		if _, err := idl.WriteProgram(c.p, d, style); err != nil {
+		if _, err := writeProgram(c.p, d, style, c.empty); err != nil {
 			continue
 		}
 		v := newInproc().audit(oldFile, filepath.Join(d, c.p.File(g).FileName()))
@@ -464,7 +465,7 @@ func evaluate(j *job, a *inproc, bin string, scratch string) *result {
 	res := &result{job: j}
 	bp := j.base
 	np := bp.p.Clone()
-	c := &ectx{p: np}
+	c := &ectx{p: np, empty: copyFlags(bp.empty)}
 	for _, ix := range j.edits {
 		e := bp.edits[ix]
 		if e.apply(c) {
@@ -487,7 +488,7 @@ func evaluate(j *job, a *inproc, bin string, scratch string) *result {
 		return res
 	}
 	res.newDir = filepath.Join(scratch, fmt.Sprintf("p%d", bp.ix), fmt.Sprintf("j%d", j.id))
-	if _, err := idl.WriteProgram(np, res.newDir, j.style); err != nil {
+	if _, err := writeProgram(np, res.newDir, j.style, c.empty); err != nil {
 		res.skipped = "cannot write the new program: " + err.Error()
 		return res
 	}
@@ -730,18 +731,24 @@ func runC18() int {
 			return nil, nil, nil
 		}
 		bp.oldDir = filepath.Join(scratch, fmt.Sprintf("p%d", i), "old")
-		root, _ := idl.WriteProgram(bp.p, bp.oldDir, bp.style)
+		bp.empty = drawEmptyThrows(bp.p, rng)
+		if i >= nProg+nRare {
+			bp.empty[emptyKey(bp.p.Root().Base, "ZqThrows", "zqEmpty")] = true
+			bp.empty[emptyKey(bp.p.Root().Base, "ZqThrows", "zqRet")] = true
+			delete(bp.empty, emptyKey(bp.p.Root().Base, "ZqThrows", "zqPlain"))
+		}
+		root, _ := writeProgram(bp.p, bp.oldDir, bp.style, bp.empty)
 		if v := setup.audit(root, root); v.Bad != "" {
 			// the style is the parser's business (C10), not the audit's: fall back to the plain rendering
 			run.Add("style_fallbacks", 1)
 			bp.style = idl.DefaultStyle()
-			root, _ = idl.WriteProgram(bp.p, bp.oldDir, bp.style)
+			root, _ = writeProgram(bp.p, bp.oldDir, bp.style, bp.empty)
 			if v := setup.audit(root, root); v.Bad != "" {
 				run.Inconclusive(fmt.Sprintf("base program %d does not parse: %s", i, v.Bad))
 				return nil, nil, nil
 			}
 		}
-		bp.edits = enumerate(bp.p, rng)
+		bp.edits = enumerate(bp.p, rng, bp.empty)
 		add := func(kind string, edits []int, st idl.Style) {
 			jobs = append(jobs, &job{base: bp, kind: kind, edits: edits, style: st})
 		}
